@@ -108,6 +108,10 @@ MUTANTS = [
            expect_rule="escape/unprotected"),
     Mutant("unformattable-handler-narrowed", FMT, "    except BaseException:\n        # Yikes, something really nasty happened.",
            "    except Exception:\n        # Yikes, something really nasty happened.", expect_rule="escape/handler-not-catch-all"),
+    Mutant("last-resort-formats-inner-exception", FMT, "    except BaseException:\n        # Yikes, something really nasty happened.", "    except BaseException as inner:\n        # Yikes, something really nasty happened.",
+           more=[(FMT, "error=safe_repr(error), failure=failure, text=text", "error=safe_repr(error), failure=inner, text=text")], expect_rule="escape/unprotected"),
+    Mutant("traceback-note-reprs-the-failure", FMT, "        traceback = \"(UNABLE TO OBTAIN TRACEBACK FROM EVENT):\" + str(e)", "        traceback = \"(UNABLE TO OBTAIN TRACEBACK FROM EVENT):\" + str(e) + \" in \" + repr(failure)",
+           expect_rule="escape/unprotected"),
     Mutant("traceback-handler-narrowed", FMT, "    except BaseException as e:\n        traceback = \"(UNABLE TO OBTAIN TRACEBACK FROM EVENT):\" + str(e)",
            "    except Exception as e:\n        traceback = \"(UNABLE TO OBTAIN TRACEBACK FROM EVENT):\" + str(e)", expect_rule="escape/handler-not-catch-all"),
     Mutant("flattened-branch-hoisted-out-of-try", FMT, "    try:\n        if \"log_flattened\" in event:\n            return flatFormat(event)\n\n        format =",
@@ -127,5 +131,6 @@ SILENT = [
            "        fmt = cast(Optional[Union[str, bytes]], event.get(\"log_format\", None))\n        if fmt is None:\n            return \"\"\n        if isinstance(fmt, bytes):\n            fmt = fmt.decode(\"utf-8\")\n        elif not isinstance(fmt, str):\n            raise TypeError(f\"Log format must be str, not {fmt!r}\")\n        return formatWithCall(fmt, event)\n"),
     Silent("bare-except", FMT, "    except BaseException:\n        # Yikes, something really nasty happened.", "    except:\n        # Yikes, something really nasty happened."),
     Silent("concat-instead-of-join", FMT, "        system = \"\".join([\"[\", _formatSystem(event), \"]\", \" \"])", "        system = \"[\" + _formatSystem(event) + \"] \""),
+    Silent("traceback-note-uses-safe-repr", FMT, "        traceback = \"(UNABLE TO OBTAIN TRACEBACK FROM EVENT):\" + str(e)", "        traceback = \"(UNABLE TO OBTAIN TRACEBACK FROM EVENT):\" + str(e) + \" in \" + safe_repr(failure)"),
     Silent("legacy-traceback-local", LOG, "            text = why + \"\\n\" + traceback\n", "            text = why + \"\\n\" + traceback\n            del why\n"),
 ]
